@@ -35,7 +35,7 @@ def run_one(mu, tier):
     try:
         copy_sources(tmp)
         if mu.get('patch'):
-            r = subprocess.run(['git', 'apply', '--unsafe-paths', '--directory', tmp, mu['patch']], capture_output=True, text=True, cwd=tmp)
+            r = subprocess.run(['git', 'apply', '--unsafe-paths', '--exclude=*.md', '--exclude=*.rst', '--exclude=*.txt', '--directory', tmp, mu['patch']], capture_output=True, text=True, cwd=tmp)
             if r.returncode != 0:
                 return mu, 'STALE', f'seeded patch does not apply: {r.stderr.strip()[:120]}', 0.0
             return run_check(mu, tier, tmp)
